@@ -223,6 +223,26 @@ pub fn fingerprint(node: &Node) -> Vec<(String, String)> {
         issued.sort();
         out.push(("issued_invoices".to_string(), issued.join(",")));
         out.push(("hwm".to_string(), st.dbid_high_water_mark.to_string()));
+        // the payment ledger as far as it carries value: (hash, channel) -> in-flight amounts.
+        // Entries without value are left out: a restart rebuilds the ledger from the current
+        // commitments and does not recreate them.
+        let mut pays: Vec<String> = vec![];
+        for (h, p) in st.payments.iter() {
+            let mut chans: std::collections::BTreeMap<String, (u64, u64)> = Default::default();
+            for (c, v) in p.incoming.iter() {
+                chans.entry(format!("{}", c)).or_default().0 = *v;
+            }
+            for (c, v) in p.outgoing.iter() {
+                chans.entry(format!("{}", c)).or_default().1 = *v;
+            }
+            for (c, (i, o)) in chans {
+                if i != 0 || o != 0 {
+                    pays.push(format!("{}@{}:in={}:out={}", hex::encode(h.0), c, i, o));
+                }
+            }
+        }
+        pays.sort();
+        out.push(("payments".to_string(), pays.join(",")));
         out.push(("velocity".to_string(), format!("{:?}", st.velocity_control)));
         out.push(("fee_velocity".to_string(), format!("{:?}", st.fee_velocity_control)));
     }
@@ -256,6 +276,22 @@ pub fn fingerprint(node: &Node) -> Vec<(String, String)> {
     }
     out.sort();
     out.dedup();
+    out
+}
+
+/// `fingerprint` plus the bookkeeping a restart legitimately normalises (empty ledger entries,
+/// CLTV bounds, fulfilment flags, the excess amount): compared around REFUSED requests only (C10)
+pub fn fingerprint_full(node: &Node) -> Vec<(String, String)> {
+    let mut out = fingerprint(node);
+    let st = node.get_state();
+    let mut pays: Vec<String> = st.payments.iter().map(|(h, p)| format!("{}:{:?}", hex::encode(h.0), p)).collect();
+    pays.sort();
+    out.push(("payments_full".to_string(), pays.join(",")));
+    let mut invs: Vec<String> =
+        st.invoices.iter().chain(st.issued_invoices.iter()).map(|(h, p)| format!("{}:{:?}", hex::encode(h.0), p)).collect();
+    invs.sort();
+    out.push(("invoices_full".to_string(), invs.join(",")));
+    out.push(("excess_amount".to_string(), st.excess_amount.to_string()));
     out
 }
 
